@@ -7,6 +7,8 @@
 //   X <hid> | <case line> | preA=<_capa>,<_size>,<store>,<capacity()>,<size()> | preB=... | res=<...> |
 //     postA=<_capa>,<_size>,<store>,<capacity()>,<size()>,<vals> | postB=... | al=<allocator events of swap2> | after=<ok|...>
 //   ORACLE <hid> 1 C13:<class>; <detail>          (zero or more, after the X line)
+//   P <hid> | preA=... | preB=...                  (before the call: what is left of a case that crashes in swap2)
+//   Q <hid> | res=... | postA=<words> | postB=<words>   (after the call, before any element is read)
 // `vals` abbreviates runs of consecutive values as lo..hi; `?` = not read because the words are inconsistent.
 // The pair table is split over translation units by -DGROUP=k (k = index of the type of the first operand).
 #include <algorithm>
@@ -192,9 +194,23 @@ Obs observe(const typename X::V &v, bool readVals) {
   } else if (o.store == "inl" && o.capLL != static_cast<long long>(X::N)) {
     o.sane = false;
     o.why = "inline storage with capacity != N";
+  } else if (o.store == "null" && o.capLL != 0) {
+    o.sane = false;
+    o.why = "null storage with a capacity";
   } else if (o.store == "heap" && X::flavour == kFCV) {
     o.sane = false;
     o.why = "FixedCapacityVector pointing outside itself";
+  } else if (o.store == "heap") {
+    // the storage must be a live block of the ledger allocator, of exactly capacity() elements: checked before any
+    // element is read, so that a wild pointer is an oracle failure with the words printed rather than a crash
+    std::map<void *, size_t>::const_iterator it = G().blocks.find(const_cast<void *>(static_cast<const void *>(v.data())));
+    if (it == G().blocks.end()) {
+      o.sane = false;
+      o.why = "storage pointer is not a live allocator block";
+    } else if (static_cast<long long>(it->second) != o.capLL) {
+      o.sane = false;
+      o.why = "capacity differs from the allocator block size " + std::to_string(it->second);
+    }
   }
   if (readVals && o.sane) {
     for (long long i = 0; i < o.sizeLL; ++i) o.vals.push_back(v.begin()[i].value());
@@ -262,6 +278,8 @@ void runCase(const std::string &hid, const std::string &line, const std::string 
   const long liveBefore = G().live;
   const long errBefore = G().nErrors;
   G().allocEvents.clear();
+  // the state before the call survives a crash of the call (stdout is line buffered in the child)
+  std::printf("P %s | preA=%s | preB=%s\n", hid.c_str(), pre(preA).c_str(), pre(preB).c_str());
 
   std::string res = "ok";
   bool threw = false;
@@ -272,7 +290,10 @@ void runCase(const std::string &hid, const std::string &line, const std::string 
     res = "threw:" + classify();
   }
   const std::string al = joinStr(G().allocEvents);
-  Obs postA = observe<XA>(a, true), postB = observe<XB>(b, true);
+  Obs postA = observe<XA>(a, false), postB = observe<XB>(b, false);
+  std::printf("Q %s | res=%s | postA=%s | postB=%s\n", hid.c_str(), res.c_str(), pre(postA).c_str(), pre(postB).c_str());
+  postA = observe<XA>(a, true);
+  postB = observe<XB>(b, true);
 
   // ---- oracles on the call itself
   if (!postA.sane) fail("corrupted words", std::string(kTypeNames[KA]) + " (first operand) " + pre(postA) + ": " + postA.why);
